@@ -14,7 +14,7 @@ Atoms (what a branch condition says):
   ("cmp", op, a, b, positive)
   ("val", x, outcome)                switch on a plain value
 """
-from .core import strip, show, is_transparent_call
+from .core import AnchorError, strip, show, is_transparent_call
 
 CONV_CALLS = (
     "std::convert::From::from",
@@ -259,26 +259,74 @@ def filter_atoms(body, nextcall):
     cb = body.facts.body(clo[1])
     item = ("ref", "shared", ("some", nextcall))
     mapping = {("arg", 2): item}
-    # the definitions of the return place: constants false on the short-circuit exits, and one "true-ish" definition
-    cand = []
-    for (b, i, kind, payload) in cb.defs().get(0, []):
-        if cb.is_cleanup(b):
-            continue
-        if kind == "rv" and payload["r"] == "use" and payload["op"]["o"] == "const" and isinstance(payload["op"]["c"].get("v"), bool):
-            if payload["op"]["c"]["v"]:
-                cand.append((b, None))
-            continue
-        cand.append((b, cb.call_term(b) if kind == "call" else cb._rv_term(payload)))
-    if len(cand) != 1:
+    return true_path_atoms(cb, mapping)
+
+
+def true_path_atoms(cb, mapping):
+    """Atoms that hold whenever the (loop-free, bool-returning) body cb returns true, provided there is exactly one path on
+    which it can: every path is walked with constant propagation of the bools it stores (`matches!`, `!`, `&&`, `||`
+    materialise their result), a path whose result is a computed value contributes that value as a last atom."""
+    if cb.loops():
         return []
-    b, last = cand[0]
-    res = []
-    for g in cb.guards(b):
-        if is_dropflag_cond(g[1]):
+    exits = set(cb.exits())
+    try:
+        paths = cb.acyclic_paths(0, exits, limit=400)
+    except AnchorError:
+        return []
+    cands = []
+    for path in paths:
+        if path[-1] not in exits:
             continue
-        res.append(atom_of(subst_term(g[1], mapping), g[2]))
-    if last is not None:
-        res.append(atom_of(subst_term(last, mapping), ("eq", 1)))
+        env = {}
+        for b in path:
+            for st in cb.blocks[b]["stmts"]:
+                if st.get("s") != "assign" or st["place"]["proj"]:
+                    if st.get("s") in ("assign", "setdiscr"):
+                        env.pop(st["place"]["l"], None)
+                    continue
+                l, rv = st["place"]["l"], st["rv"]
+                v = None
+                if rv["r"] == "use":
+                    op = rv["op"]
+                    if op["o"] == "const" and isinstance(op["c"].get("v"), bool):
+                        v = op["c"]["v"]
+                    elif op["o"] in ("copy", "move") and not op["place"]["proj"] and op["place"]["l"] in env:
+                        v = env[op["place"]["l"]]
+                elif rv["r"] == "unop" and rv["uop"] == "Not" and rv["a"]["o"] in ("copy", "move") and not rv["a"]["place"]["proj"] and rv["a"]["place"]["l"] in env:
+                    x = env[rv["a"]["place"]["l"]]
+                    v = (not x) if isinstance(x, bool) else ("expr", x[1], not x[2])
+                if v is None:
+                    if cb.locals[l]["ty"] == "bool":
+                        v = ("expr", cb._rv_term(rv), False)
+                    else:
+                        env.pop(l, None)
+                        continue
+                env[l] = v
+            t = cb.term(b)
+            if t["t"] == "call" and not t["dest"]["proj"]:
+                if cb.locals[t["dest"]["l"]]["ty"] == "bool":
+                    env[t["dest"]["l"]] = ("expr", cb.call_term(b), False)
+                else:
+                    env.pop(t["dest"]["l"], None)
+        v = env.get(0)
+        if v is None:
+            return []
+        if v is False:
+            continue
+        cands.append((path, v))
+    if len(cands) != 1:
+        return []
+    path, v = cands[0]
+    res = []
+    for p, q in zip(path, path[1:]):
+        eg = cb.edge_guards(p, q)
+        if eg is None or is_dropflag_cond(eg[0]):
+            continue
+        a = atom_of(subst_term(eg[0], mapping), eg[1])
+        if a not in res:
+            res.append(a)
+    if v is not True:
+        res.append(atom_of(subst_term(v[1], mapping), ("eq", 0 if v[2] else 1)))
     return res
 
 
